@@ -447,6 +447,13 @@ def _check_module(module, comps: list, first_in_cds: bool, where: str, reload: b
     if problems:
         raise Violation("layout", {"where": where, "module": _describe(module), "broken": problems})
     ref = replay(comps)
+    # the subtype names of a component are those of the domain's internal hits as they are now
+    for comp, model in zip(module.components, comps):
+        with code_under_test("flags_total"):
+            got = [list(comp.subtypes), comp.subtype, list(comp.domain.detailed_names)]
+        want = [model["subs"], model["subs"][0] if model["subs"] else None, [model["id"]] + model["subs"]]
+        if got != want:
+            raise Violation("subtype_names", {"where": where, "module": _describe(module), "got": got, "want": want})
     with code_under_test("flags_total"):
         complete = module.is_complete()
         trans_at = module.is_trans_at()
@@ -1042,6 +1049,12 @@ def token_domain(token: str, start: int, size: int = 80) -> dict:
     """ 'KS:T' = PKS_KS with Trans-AT-KS subtype, 'KS:I' iterative, 'KS:M' modular """
     if ":" in token:
         base, sub = token.split(":")
+        if sub in ("Tc", "Tct"):
+            # trans-AT subtype with a transATor clade below it; "t": attached top-down with a read in between
+            hit = {"id": "Trans-AT-KS", "in": [{"id": "Clade_12"}]}
+            if sub == "Tct":
+                hit["td"] = True
+            return {"id": TOKENS[base], "s": start, "e": start + size, "in": [hit]}
         subtype = {"T": "Trans-AT-KS", "I": "Iterative-KS", "M": "Modular-KS"}[sub]
         return {"id": TOKENS[base], "s": start, "e": start + size, "in": [{"id": subtype}]}
     return {"id": TOKENS[token], "s": start, "e": start + size}
@@ -1074,7 +1087,17 @@ def enum_genes(max_len: int):
             for pos in range(1, 4):
                 for extra in GENE_SYMBOLS:
                     yield {"gene": tokens_gene(before + core[:pos] + (extra,) + core[pos:], "g0"), "kind": "double"}
+        # trans-AT KS with a transATor hit below the subtype hit, built bottom-up and top-down (names read between)
+        for template in nested_templates():
+            yield {"gene": tokens_gene(template, "g0"), "kind": "nested"}
     return cases
+
+
+def nested_templates():
+    for template in FULL_TEMPLATES:
+        if "KS:T" in template:
+            for token in ("KS:Tc", "KS:Tct"):
+                yield tuple(token if tok == "KS:T" else tok for tok in template)
 
 
 def _pair_shapes(thorough: bool):
@@ -1135,6 +1158,10 @@ def loading_pairs():
 def enum_pipeline(thorough: bool):
     def cases():
         limit = 4 if thorough else 3
+        for template in nested_templates():
+            for cut in range(1, len(template)):
+                yield {"genes": [tokens_gene(template[:cut], "g0"), tokens_gene(template[cut:], "g1")],
+                       "strands": [1, 1], "kind": "nested"}
         for up, down in loading_pairs():
             if down[0] in ("IF", "X") or len(down) > 3:
                 continue
@@ -1250,6 +1277,8 @@ _INTERNALS = st.sampled_from(
     [[]] * 4
     + [[{"id": "Trans-AT-KS"}]] * 4
     + [[{"id": "Trans-AT-KS", "in": [{"id": sub}]}] for sub in ("bOH", "DB", "ST", "a-Me_OH")]
+    + [[{"id": "Trans-AT-KS", "in": [{"id": sub}], "td": True}] for sub in ("bOH", "Clade_12", "ST")]
+    + [[{"id": "Trans-AT-KS", "td": True}], [{"id": "Iterative-KS", "in": [{"id": "x"}, {"id": "y"}], "td": True}]]
     + [[{"id": sub}] for sub in KS_SUBTYPES] * 2
     + [[{"id": "Trans-AT-KS"}, {"id": "Modular-KS"}], [{"id": "Iterative-KS"}, {"id": "Hybrid-KS"}],
        [{"id": "Trans-AT-KS"}, {"id": "Trans-AT-KS"}], [{"id": "Enediyne-KS"}, {"id": "Trans-AT-KS"}]])
